@@ -121,6 +121,7 @@ pub struct Monitors {
     first_list_answered: bool,
     changed_after_list: bool,
     poll_outstanding: bool,
+    grid_at_restart: u64,
     todo_panics: u32,
     pub stale_heights: u32,
     pub failed_polls: u32,
@@ -163,6 +164,7 @@ impl Monitors {
             first_list_answered: false,
             changed_after_list: false,
             poll_outstanding: false,
+            grid_at_restart: 0,
             todo_panics: 0,
             stale_heights: 0,
             failed_polls: 0,
@@ -275,7 +277,7 @@ impl Monitors {
         let first_fee_fails = !fee_sufficient_ref(cfg.base, cfg.ppm, first_total, amount);
         let first_expiry_fails = first_spec.cltv_rel < cfg.policy_delta as i64;
         let fresh = matches!(lc.fetch_state, Some("Absent") | Some("Free"));
-        if (first_fee_fails || first_expiry_fails) && fresh && cfg.mpp_timeout_s != 0 && !lc.tainted && !lc.pay_issued {
+        if (first_fee_fails || first_expiry_fails) && fresh && cfg.mpp_timeout_s != 0 && !lc.tainted {
             self.stats.c12_clause += 1;
             let want = hex::encode(fee_failure_ref(cfg.base, cfg.ppm, cfg.policy_delta));
             let first_answer = answers.iter().find(|a| a.0 == first).map(|a| a.1.clone());
@@ -403,6 +405,8 @@ impl Monitors {
             Ev::Crash { down_s, .. } => {
                 self.stats.crashes += 1;
                 self.grid_s += down_s;
+                // stored attempt times are aged by the engine exactly here (at the crash), up to this grid time
+                self.grid_at_restart = self.grid_s;
                 self.mix(2 + down_s);
                 let any_pending = self.tracks.keys().any(|h| s.node.stored_state(h).0 == "Pending");
                 if any_pending {
@@ -427,7 +431,6 @@ impl Monitors {
                 let info = self.info[*h].clone();
                 if info.tramp.is_some() {
                     self.stats.past_classification += 1;
-                    let grid = self.grid_s;
                     let live = Self::live(s, &info.hash);
                     let stored = s.node.stored_state(&info.hash).0;
                     let open = self.tracks.get(&info.hash).map(|t| t.lc.open).unwrap_or(false);
@@ -435,7 +438,7 @@ impl Monitors {
                         let t = self.tracks.entry(info.hash).or_default();
                         t.lc = Lifecycle { open: true, first: Some(*h), started_ms: rec.t_ms, ..Default::default() };
                         if let Some(w) = t.pending_written_grid {
-                            t.lc.grid_age_at_start = grid.saturating_sub(w);
+                            t.lc.grid_age_at_start = self.grid_at_restart.saturating_sub(w);
                         }
                         if live || stored == "Pending" {
                             self.stats.earlier_attempt_when_ready += 1;
@@ -698,6 +701,7 @@ impl Monitors {
                             let need = a as u128 + cfg.base as u128 + (a as u128 * cfg.ppm as u128) / 1_000_000;
                             if sum < need {
                                 self.v("C03", "pay_not_covered", format!("pay issued with held total {sum} < amount {a} + fee = {need} (held {:?})", held), json!({}));
+                                self.v("C11", "pay_started_for_incomplete_set", format!("pay issued although the held HTLCs {:?} total {sum} < required {need}", held), json!({}));
                             }
                             let maxfee = params.get("maxfee").and_then(parse_msat);
                             match maxfee {
